@@ -55,6 +55,12 @@ def main():
     demo = os.path.join(out, "demo%s.rs" % k)
     notes = os.path.join(out, "change%s.md" % k)
     meta = {"property": prop, "change": k, "ran": []}
+    d = os.path.join(VERIF, "seeded", "%s-%s" % (prop, k))
+    if "--checks-only" in sys.argv:
+        # re-run the checks against an already confirmed change (after rules changed)
+        meta = json.load(open(os.path.join(d, "meta.json")))
+        diff = os.path.join(d, "patch.diff")
+        return run_checks(meta, diff, props, d, prop, k)
     if not (os.path.exists(diff) and os.path.exists(demo)):
         print("missing deliverables for", prop, k)
         return 2
@@ -82,6 +88,18 @@ def main():
     valid = clean_pass and compiles and changed_fail and suite_ok
     meta["valid"] = valid
     print("%s-%s: clean_pass=%s compiles=%s changed_fail=%s suite_ok=%s => %s" % (prop, k, clean_pass, compiles, changed_fail, suite_ok, "VALID" if valid else "INVALID"))
+    rc = run_checks(meta, diff, props, d, prop, k)
+    shutil.copy(diff, os.path.join(d, "patch.diff"))
+    shutil.copy(demo, os.path.join(d, "demo.rs"))
+    if os.path.exists(notes):
+        shutil.copy(notes, os.path.join(d, "notes.md"))
+        meta["needs"] = open(notes).read()[:1500]
+    with open(os.path.join(d, "meta.json"), "w") as f:
+        json.dump(meta, f, indent=1)
+    return rc
+
+
+def run_checks(meta, diff, props, d, prop, k):
     # run the checks on /repo with the change applied
     st = subprocess.run("git -C /repo status --porcelain", shell=True, capture_output=True, text=True).stdout.strip()
     if st:
@@ -94,7 +112,7 @@ def main():
             print("patch does not apply to /repo", o)
             return 2
         for p in props:
-            rc, o = sh("./check %s --tier quick" % p, cwd=VERIF)
+            rc, o = sh("PV_OUT=/tmp/pvout-seed ./check %s --tier quick" % p, cwd=VERIF)
             keys = []
             for rep in re.findall(r"VIOLATION property=\S+ replay=(\S+)", o):
                 try:
@@ -108,15 +126,8 @@ def main():
     finally:
         sh("git -C /repo checkout -- .")
     meta["checks"] = detected
-    meta["detected_by"] = sorted(p for p, d in detected.items() if d["exit"] != 0)
-    d = os.path.join(VERIF, "seeded", "%s-%s" % (prop, k))
+    meta["detected_by"] = sorted(p for p, dd in detected.items() if dd["exit"] != 0)
     os.makedirs(d, exist_ok=True)
-    shutil.copy(diff, os.path.join(d, "patch.diff"))
-    shutil.copy(demo, os.path.join(d, "demo.rs"))
-    if os.path.exists(notes):
-        shutil.copy(notes, os.path.join(d, "notes.md"))
-        txt = open(notes).read()
-        meta["needs"] = txt[:1500]
     with open(os.path.join(d, "meta.json"), "w") as f:
         json.dump(meta, f, indent=1)
     return 0
